@@ -386,7 +386,7 @@ void top_level_op(World& W, Choices& c)
     case 2: op_create_logger(W); break;
     case 3: op_remove_logger(W, pick_worker(W), false); break;
     case 4: op_remove_logger(W, pick_worker(W), true); break;
-    case 5: op_drop_sink_ref(W); break;
+    case 5: if (c.pick(2)) op_drop_sink_ref(W); else make_sink(W); break;
     case 6: op_start_thread(W); break;
     case 7: op_exit_thread(W, pick_worker(W)); break;
     default: op_flush(W, pick_worker(W), false, 0); break;
